@@ -24,7 +24,8 @@ PROJECTION = {"R": True, "O": ["id", "status", "complete"], "T": True, "C": True
 
 
 def gen_opts(rng):
-    return {"p_removal": 0.25, "p_suspend": 0.35, "p_inplay": 0.3, "p_close": 0.4, "strategies": rng.choice([1, 2]), "p_act": 0.75}
+    return {"p_removal": 0.25, "p_suspend": 0.35, "p_inplay": 0.3, "p_close": 0.4, "strategies": rng.choice([1, 2]), "p_act": 0.75,
+            "p_handicap": 0.2}       # runners that are a selection id PLUS a handicap: the runner context is keyed by both
 
 
 class Oracle(simcheck.BaseOracle):
@@ -99,7 +100,12 @@ class Oracle(simcheck.BaseOracle):
                         # charged although every order is complete: is the last one a VIOLATION (refused request on a live order)?
                         lastv = all(any(o.status is not None and o.status.name == "VIOLATION" and any(z.name != "VIOLATION" for z in o.status_log)
                                         for o in by_id[x].orders) for x in extra if x in by_id)
-                        stale = all(by_id[x].status.name == "COMPLETE" for x in extra if x in by_id)
+                        # (known finding F16 is about a completed trade that was given a further order afterwards; a completed trade
+                        # that simply was never taken off the live list is something else)
+                        def reused(t):
+                            done = getattr(t, "date_time_complete", None)
+                            return done is not None and any(o.status_log and o.date_time_created >= done for o in t.orders)
+                        stale = all(by_id[x].status.name == "COMPLETE" and reused(by_id[x]) for x in extra if x in by_id)
                         sig = "locked-out-by-violation-of-live-order" if lastv else ("completed-trade-reused-not-reopened" if stale else "locked-out")
                     elif missing:
                         sig = "live-trade-not-charged"
